@@ -14,7 +14,10 @@ pub struct TF {
     /// 0 single operation, 1 two-stage composite, 2 spider-only merge, 3 disconnected (discard / create),
     /// 4 two-stage composite handed over as an un-quotiented lax composite (lax entry points only),
     /// 5 single operation whose ports are listed in the reverse order of the interface wires,
-    /// 6 spider-only merge plus one isolated node (a closed "dot"; for an operation of F-type [] -> [] the dot alone)
+    /// 6 spider-only merge plus one isolated node (a closed "dot"; for an operation of F-type [] -> [] the dot alone),
+    /// 7 single operation of unchanged arity whose equally labelled source wires share one node (likewise the targets):
+    ///   a non-monogamous one-operation image,
+    /// 8 single operation plus one isolated node
     pub recipe: u8,
 }
 
@@ -75,6 +78,31 @@ impl TF {
                 let mut nodes = labels.clone();
                 nodes.push(99);
                 L::strict(P { nodes, edges: vec![], s, t })
+            }
+            7 => {
+                let mut nodes: Vec<u8> = vec![];
+                let mut place = |ls: &[u8], nodes: &mut Vec<u8>| -> Vec<usize> {
+                    let base = nodes.len();
+                    let mut seen: Vec<u8> = vec![];
+                    ls.iter()
+                        .map(|l| match seen.iter().position(|m| m == l) {
+                            Some(p) => base + p,
+                            None => {
+                                seen.push(*l);
+                                nodes.push(*l);
+                                base + seen.len() - 1
+                            }
+                        })
+                        .collect()
+                };
+                let s = place(&fa, &mut nodes);
+                let t = place(&fb, &mut nodes);
+                L::strict(P { nodes, edges: vec![PEdge { label: 100 + x, src: s.clone(), tgt: t.clone() }], s, t })
+            }
+            8 => {
+                let mut p = P::singleton(100 + x, &fa, &fb);
+                p.nodes.push(98);
+                L::strict(p)
             }
             _ => L::strict(P::singleton(120 + x, &fa, &[]).tensor(&P::singleton(130 + x, &[], &fb))),
         }
